@@ -591,3 +591,31 @@ def main(ctx):
     if ctx.quick:
         runits = runits[::3]
     ctx.lattice("pmap-real-pool", runits, one_real, nworkers=4, bounds=dict(note="latency decreasing in the index"))
+
+    # ------------------------------------------------------------ call sequences
+    # sequences of sort / chunking calls in one process on the same list and array objects
+    # (mc/worlds.py call_sequences): recursion scratch kept at module level, memoised chunk boundaries
+    from mc.worlds import call_sequences
+
+    def seq_pool():
+        return dict(a=np.array([3, 1, 2, 1, 0, 2]), k=np.array([2, 0, 1, 1, 2, 0]), v=np.array([10, 11, 12, 13, 14, 15]),
+                    l=[5, 3, 4, 3], r=np.arange(7))
+
+    SEQ_CALLS = [("quicksort", "a"), ("quicksort", "l"), ("quicksort_keyvalue", "k", "v"), ("isplit", 7, 3), ("isplit", 10, 4),
+                 ("isplit", 3, 5), ("splitarray", 2, "r"), ("splitarray", 3, "r"), ("splitarray", 3, "a")]
+
+    def seq_run(c, pool):
+        # the sorts work in place: they get private copies of the pooled data, the results are the sorted copies
+        if c[0] == "quicksort":
+            d = pool[c[1]].copy() if isinstance(pool[c[1]], np.ndarray) else list(pool[c[1]])
+            algorithm.quicksort(d)
+            return [np.asarray(d)]
+        if c[0] == "quicksort_keyvalue":
+            kk, vv = pool[c[1]].copy(), pool[c[2]].copy()
+            algorithm.quicksort_keyvalue(kk, vv)
+            return [kk, vv]
+        if c[0] == "isplit":
+            return [np.asarray(v) for v in algorithm.isplit(c[1], c[2])]
+        return [np.asarray(x) for x in nu.splitarray(c[1], pool[c[2]])]
+
+    call_sequences(ctx, "call-sequences", seq_pool, SEQ_CALLS, seq_run, lambda: [algorithm, nu], depth=3, nodedup_depth=3)
